@@ -340,6 +340,7 @@ impl World {
                 let _ = op.tx.send(Cmd::Drop(Delay::parse(w.get(2))));
             }
             "yield" => yields(num(1)).await,
+            "fine" => {}
             "settle" => {
                 settle().await;
                 self.report();
@@ -405,15 +406,23 @@ impl World {
     }
 }
 
-fn run_rt<F: std::future::Future<Output = ()>>(f: F) {
-    let rt = tokio::runtime::Builder::new_current_thread().enable_time().start_paused(true).build().unwrap();
+/// `fine`: the scheduler returns to the harness future after every single task poll, so that one `yield`
+/// is one poll of one other task (otherwise up to 61 polls) and stimuli land between any two polls.
+fn run_rt<F: std::future::Future<Output = ()>>(fine: bool, f: F) {
+    let mut b = tokio::runtime::Builder::new_current_thread();
+    b.enable_time().start_paused(true);
+    if fine {
+        b.event_interval(1);
+    }
+    let rt = b.build().unwrap();
     rt.block_on(f);
     drop(rt);
 }
 
 fn run_script(lines: &[String]) {
     let lines = lines.to_vec();
-    run_rt(async move {
+    let fine = lines.iter().any(|l| l.trim() == "fine");
+    run_rt(fine, async move {
         let mut conns = 0usize;
         let mut it = lines.iter().peekable();
         while let Some(l) = it.peek() {
@@ -609,6 +618,9 @@ impl Gen {
     /// position (queued if the guard is not there yet).
     async fn burst(&mut self, stimuli: usize, race: bool) {
         let mut w = self.setup(None).await;
+        if race {
+            w.exec("fine").await;
+        }
         let mut unclosed: Vec<u32> = Vec::new();
         let mut since_settle = 0;
         for _ in 0..stimuli {
@@ -618,7 +630,7 @@ impl Gen {
                 let k = self.next_op;
                 self.next_op += 1;
                 unclosed.push(k);
-                let y = if race { self.rng.below(6) } else { self.rng.below(3) };
+                let y = if race { self.rng.below(30) } else { self.rng.below(3) };
                 if self.rng.chance(if race { 6 } else { 7 }, 10) {
                     self.stat("read");
                     format!("read {k} {h} {y}")
@@ -629,7 +641,7 @@ impl Gen {
             } else if r < 75 {
                 let i = self.rng.below(unclosed.len() as u64) as usize;
                 let k = unclosed.swap_remove(i);
-                let y = self.rng.below(4);
+                let y = if race { self.rng.below(20) } else { self.rng.below(4) };
                 if w.ops[&k].write {
                     if self.rng.chance(2, 3) {
                         self.stat("commit");
@@ -657,7 +669,7 @@ impl Gen {
                 }
             } else if r < 90 {
                 self.stat("yield");
-                format!("yield {}", self.rng.range(1, 5))
+                format!("yield {}", if race { self.rng.range(1, 40) } else { self.rng.range(1, 5) })
             } else if r < 93 && w.handles.len() < 6 {
                 self.more_handle(&mut w).await;
                 continue;
@@ -716,7 +728,7 @@ fn main() {
                     let mut gen_ = Gen { mode, rng: r, next_op: 1, stats: BTreeMap::new() };
                     let cell = std::sync::Arc::new(std::sync::Mutex::new(None));
                     let c2 = cell.clone();
-                    run_rt(async move {
+                    run_rt(gname == "race", async move {
                         match gname.as_str() {
                             "exact" => {
                                 let n = gen_.rng.range(8, 40) as usize;
